@@ -29,14 +29,26 @@ func (sc *scen) fundRenter(txn *types.V2Transaction, amount types.Currency, drop
 	}
 	parents = set[:len(set)-1]
 	n := len(txn.SiacoinInputs)
-	if drop && n >= 2 {
-		n--
-		dropped = true
+	total := func(k int) (t types.Currency) {
+		for _, si := range txn.SiacoinInputs[:k] {
+			t = t.Add(si.Parent.SiacoinOutput.Value)
+		}
+		return
+	}
+	if drop {
+		// withhold inputs from the end until what is left no longer covers the cost
+		k := n
+		for k > 1 && total(k).Cmp(amount) >= 0 {
+			k--
+		}
+		if total(k).Cmp(amount) < 0 {
+			n, dropped = k, true
+		}
 	}
 	for _, si := range txn.SiacoinInputs[:n] {
 		inputs = append(inputs, si.Parent.Copy())
-		sum = sum.Add(si.Parent.SiacoinOutput.Value)
 	}
+	sum = total(n)
 	return
 }
 
